@@ -138,6 +138,9 @@ pub enum TyperError {
     /// String types should not appear in main language
     StringNotSupported(SourceLocation),
 
+    /// 64-bit integer literals have no type to take
+    Int64NotSupported(SourceLocation),
+
     /// A type modifier was used in a context where it is not allowed to be used
     ModifierNotSupported(ast::TypeModifier, SourceLocation, TypePosition),
 
@@ -817,6 +820,11 @@ impl CompileError for TyperExternalError {
                         "unexpected number of arguments to global variable attribute '{name}'"
                     )
                 },
+                *loc,
+                Severity::Error,
+            ),
+            TyperError::Int64NotSupported(loc) => w.write_message(
+                &|f| write!(f, "64-bit integer literals are not supported"),
                 *loc,
                 Severity::Error,
             ),
